@@ -427,7 +427,7 @@ pub fn run(ctx: &mut Ctx) {
             for p in trunc_points(&bytes, !quick) { check_bytes(ctx, &bytes[..p], &format!("trunc@{p}"), "truncated"); dev_counts[1] += 1; }
         }
         // deviation 2 (thorough): every pair of structural edits and every structural edit followed by a truncation, on a reduced base set
-        if !quick && bi % 23 == 0 {
+        if !quick && bi % 5 == 0 {
             for e1 in STRUCTURAL { if let Some(v1) = apply_structural(b, e1) {
                 for p in trunc_points(&v1, false) { check_bytes(ctx, &v1[..p], &format!("{e1}+trunc@{p}"), e1); dev_counts[2] += 1; }
                 // second structural edit applied to the same base fields where they commute (different parts): re-apply on a base rebuilt from the first edit is not possible in general,
@@ -439,7 +439,7 @@ pub fn run(ctx: &mut Ctx) {
     ctx.extra.insert("sum_dev0".into(), json!(dev_counts[0])); ctx.extra.insert("sum_dev1".into(), json!(dev_counts[1])); ctx.extra.insert("sum_dev2".into(), json!(dev_counts[2]));
     ctx.extra.insert("rule".into(), json!("case = byte string presented as the first read of a fresh connection; deviation 0 = product of menus (methods x targets x ordered header selections x bodies incl. bodies ending exactly at / one past the 1 KiB buffer, and heads ending within one byte of it); deviation 1 = one structural edit (36 kinds) or one truncation point; deviation 2 = pairs; non-trivial = every case (each is classified by the reference parser and compared); collision = the input is malformed/incomplete, or well-formed with headers or a body (the paths on which lookups, joins and payload slicing happen)"));
     ctx.extra.insert("bounds".into(), json!({"methods": if quick { 3 } else { 7 }, "targets": if quick { 8 } else { TARGET_MENU.len() }, "header_menu": HEADER_MENU.len(), "header_lines": if quick { "0..2" } else { "0..3" },
-        "structural_edits": STRUCTURAL.len(), "deviation_completed": if quick { "1 (on every 2nd base), 0 on all" } else { "1 on all bases, 2 on every 23rd base" }}));
+        "structural_edits": STRUCTURAL.len(), "deviation_completed": if quick { "1 (on every 2nd base), 0 on all" } else { "1 on all bases, 2 on every 5th base" }}));
     ctx.traces_validated = ctx.transitions;
     ctx.sample(|| json!({"input": "GET /a?x=1 HTTP/1.1\\r\\nHost: h.example\\r\\n\\r\\n", "deviation": "none"}));
     ctx.sample(|| json!({"input": "GET /a\\r\\nHost: h.example\\r\\n\\r\\n", "deviation": "no-second-sp"}));
